@@ -16,6 +16,8 @@ pub fn add(&mut self, attribute: StunAttribute)
 //@closure 1
 |a: &StunAttribute| -> (b: bool)
     ensures b == (a.ty() == attr.ty()),
+//@head
+    proof { reveal(distinct_types); reveal(seq_index_of); }
 //@spec
     requires old(self).wf(),
     ensures final(self).wf(),
@@ -42,6 +44,8 @@ pub fn add(&mut self, attribute: StunAttribute)
 //@closure 1
 |a: &StunAttribute| -> (b: bool)
     ensures b == (a.ty() == T::spec_type()),
+//@head
+    proof { reveal(distinct_types); reveal(seq_index_of); }
 //@spec
     requires old(self).wf(),
     ensures final(self).wf(),
